@@ -30,8 +30,12 @@ func itProps(h *itHandle) []string {
 	if r == "pkg/obiiter" && (h.fd.Name.Name == "IMergeSequenceBatch" || h.fd.Name.Name == "Distribute") {
 		props = append(props, "C06")
 	}
-	if r == "pkg/obiiter" && (h.fd.Name.Name == "DivideOn" || h.fd.Name.Name == "Distribute" || h.fd.Name.Name == "PairTo") {
+	if r == "pkg/obiiter" && (h.fd.Name.Name == "DivideOn" || h.fd.Name.Name == "Distribute" || h.fd.Name.Name == "PairTo" || h.fd.Name.Name == "FilterOn" || h.fd.Name.Name == "FilterAnd") {
 		props = append(props, "C16")
+	}
+	// stages every reader is built from (C01 anchors pkg/obiiter/batchiterator.go)
+	if r == "pkg/obiiter" && (h.fd.Name.Name == "SortBatches" || h.fd.Name.Name == "Rebatch") {
+		props = append(props, "C01")
 	}
 	return props
 }
